@@ -17,7 +17,7 @@ TIERS = {  # mode: (programs, steps) per tier
     "c11": {"quick": (32, 700), "thorough": (400, 2000)},
     "c16": {"quick": (32, 900), "thorough": (300, 2500)},
     "c20": {"quick": (32, 700), "thorough": (300, 2000)},
-    "c18": {"quick": (32, 500), "thorough": (300, 1500)},
+    "c18": {"quick": (32, 500), "thorough": (180, 1200)},
 }
 
 
